@@ -273,6 +273,23 @@ func F2(thorough bool) []*Program {
 			fn("NewT3", nil, []string{"*T3"}, false),
 			fn("NewT0", []string{"*T2", "*T3"}, []string{"*T0"}, false),
 		}}}})
+	// two Set variables declared in one var spec; the declaration uses the second one, whose
+	// providers supply the same types as the first one's
+	add(&Program{Desc: "set variable from a multi-name var spec", Types: typeNames(3), Decls: []Decl{{
+		Name: "InitP", Request: "*T0", Provs: []Prov{
+			fn("NewT1B", nil, []string{"*T1"}, false),
+			fn("NewT2B", []string{"*T1"}, []string{"*T2"}, false),
+			fn("NewT0", []string{"*T1", "*T2"}, []string{"*T0"}, false),
+		}, Sets: [][]int{{0, 1}}, SetVars: []string{"mySet"},
+		JointWith: []Prov{fn("NewT1A", nil, []string{"*T1"}, false), fn("NewT2A", []string{"*T1"}, []string{"*T2"}, true)}}}})
+	// a constant consumed in two goroutines
+	add(&Program{Desc: "value consumed by two async providers", Types: typeNames(3), Consts: []string{"type V0 string", "const cV0 V0 = \"x\""}, Decls: []Decl{{
+		Name: "InitP", Request: "*T0", Provs: []Prov{
+			{Kind: KValue, ValueOf: "cV0", Results: []string{"V0"}, Name: "value:cV0", VTerm: "(litS \"x\")"},
+			func() Prov { p := fn("NewT1", []string{"V0"}, []string{"*T1"}, false); p.Async = true; return p }(),
+			func() Prov { p := fn("NewT2", []string{"V0"}, []string{"*T2"}, false); p.Async = true; return p }(),
+			fn("NewT0", []string{"*T1", "*T2"}, []string{"*T0"}, false),
+		}}}})
 	// Bind written around Async
 	add(&Program{Desc: "bind-outside-async", Types: typeNames(3), Ifaces: map[string]string{"I0": "T1"}, Decls: []Decl{{
 		Name: "InitP", Request: "*T0", Provs: []Prov{
@@ -802,6 +819,8 @@ func FD() []*Program {
 	// injector names colliding with variable base names (history dependence)
 	out = append(out, &Program{Family: "FD", Desc: "injector named like a variable", Types: []string{"App", "Db"},
 		Decls: []Decl{named("app", "App", "App:Db", "Db:"), named("InitDb", "Db", "Db:")}})
+	out = append(out, &Program{Family: "FD", Desc: "later injector named like a variable of an earlier one", Types: []string{"App", "Server", "Db"},
+		Decls: []Decl{named("InitApp", "App", "App:Db", "Db:"), named("db", "Server", "Server:Db", "Db:")}})
 	out = append(out, &Program{Family: "FD", Desc: "two files, second needs first's injector name", Types: []string{"App", "Server", "Db"}, Files: [][]int{{0}, {1}},
 		Decls: []Decl{named("server", "Server", "Server:Db", "Db:"), named("InitApp", "App", "App:Db,Server", "Db:", "Server:Db")}})
 	// three declaration files (k.go, k2.go, k3.go): single-file invocations next to the
